@@ -655,6 +655,11 @@ def primitives(x: Exc, f: FuncInfo, node: ast.AST, st, flow: KindFlow):
             k = K(args[0])
             if k != ALL and "O" not in k and k & _k("ILD"):
                 yield "str(int)", _argtext(args[0]) + "\x00" + "".join(sorted(k)), [VE]
+        elif plain and name == "soft_str" and args and x.arm_intstr:
+            k = K(args[0])
+            if "O" not in k or k == ALL:
+                if k == ALL or k & _k("ILD"):
+                    yield "str(int)", "soft_str:" + _argtext(args[0]) + "\x00" + "".join(sorted(k)), [VE]
         elif plain and name == "sum" and args:
             a0 = args[0]
             ek = K(a0.elt) if isinstance(a0, (ast.GeneratorExp, ast.ListComp)) else None
@@ -731,6 +736,12 @@ def primitives(x: Exc, f: FuncInfo, node: ast.AST, st, flow: KindFlow):
             yield "strptime()", _argtext(args[0]) if args else "", [VE]
         elif name == "dumps" and isinstance(fn, ast.Attribute) and attr_chain(fn.value) == ["json"]:
             yield "json.dumps()", _argtext(args[0]) if args else "", [TE, VE]
+            ind = next((k.value for k in node.keywords if k.arg == "indent"), None)
+            if ind is not None and not (isinstance(ind, ast.Constant)):
+                ki = K(ind)
+                if ki == ALL or "I" in ki:
+                    # ' ' * indent with an int that does not fit in a machine word
+                    yield "json.dumps(indent)", _argtext(ind) + "\x00" + "".join(sorted(ki)), [OE]
         elif name == "loads" and isinstance(fn, ast.Attribute) and attr_chain(fn.value) == ["json"]:
             yield "json.loads()", _argtext(args[0]) if args else "", [VE]
         elif name == "parse" and isinstance(fn, ast.Attribute) and attr_chain(fn.value) in (["parser"], ["dateutil", "parser"]) and _is_external(x, f, fn.value):
